@@ -150,6 +150,7 @@ class Run(object):
         self.raw = None
         self.memory_logger = None
         self.context_errors = []
+        self.side_logs = []  # message lists written by forked children to their own files
 
 
 class Ctx(object):
@@ -761,7 +762,7 @@ class Interp(object):
             model["obj"] = action
             self._run_with(action, node["body"], cctx, model)
 
-        self._schedule(node, ctx, pending, cont)
+        self._schedule(dict(node, _model=model), ctx, pending, cont)
 
     def _run_with(self, action, body, cctx, model):
         """`with action: body`, swallowing (and recording) what the body raises."""
@@ -785,9 +786,87 @@ class Interp(object):
         if self.check_context and current_action() is not before:
             self.run.context_errors.append("after remote action: context not restored")
 
+    def _in_child_process(self, cont, model):
+        """
+        Run the continuation in a forked child that logs to its own file; the
+        child ships back its part of the model (as plain data), the messages
+        it wrote and its counters.
+        """
+        import pickle
+
+        tmp = tempfile.NamedTemporaryFile(prefix="child-", suffix=".log", delete=False)
+        tmp.close()
+        r, w = os.pipe()
+        pid = os.fork()
+        if pid == 0:
+            code = 0
+            try:
+                os.close(r)
+                fresh = Destinations()
+                Logger._destinations = fresh
+                f = open(tmp.name, "ab")
+                fresh.add(FileDestination(file=f))
+                tasks_before = len(self.run.tasks)
+                side_before = len(self.run.side_logs)
+                try:
+                    cont(Ctx())
+                except Abort:
+                    pass
+                f.close()
+                payload = {
+                    "model": _strip_model(model),
+                    "new_tasks": [_strip_model(t) for t in self.run.tasks[tasks_before:]],
+                    "errors": self.run.errors,
+                    "context_errors": self.run.context_errors,
+                    "n": self.n,
+                    "stats": dict((k, v) for k, v in self.run.stats.items() if k != "task_ids"),
+                    "task_ids": self.run.stats.get("task_ids", []),
+                    "side_logs": self.run.side_logs[side_before:],
+                }
+                with os.fdopen(w, "wb") as out:
+                    pickle.dump(payload, out)
+            except BaseException:
+                import traceback
+
+                traceback.print_exc()
+                code = 3
+            finally:
+                os._exit(code)
+        os.close(w)
+        with os.fdopen(r, "rb") as inp:
+            data = inp.read()
+        _, status = os.waitpid(pid, 0)
+        try:
+            if status != 0 or not data:
+                raise HarnessError("child process of a remote hop failed (status %r)" % (status,))
+            payload = pickle.loads(data)
+            with open(tmp.name, "rb") as f:
+                lines = [l for l in f.read().split(b"\n") if l]
+        finally:
+            os.unlink(tmp.name)
+        # splice the child's results into this run
+        model.clear()
+        model.update(payload["model"])
+        self.run.tasks.extend(payload["new_tasks"])
+        self.run.errors.extend(payload["errors"])
+        self.run.context_errors.extend(payload["context_errors"])
+        self.n = payload["n"]
+        self.run.stats["task_ids"] = payload["task_ids"]
+        for k, v in payload["stats"].items():
+            self.run.stats[k] = v
+        self.run.side_logs.extend(payload["side_logs"])
+        self.run.side_logs.append([json.loads(l.decode("utf-8")) for l in lines])
+        self.stat("remote:process-hop")
+
     def _schedule(self, node, ctx, pending, cont):
         where = node["where"]
-        if where == "thread":
+        if where == "process" and self.opts.get("allow_fork") and threading.current_thread() is threading.main_thread():
+            model_holder = node["_model"]
+
+            def later():
+                self._in_child_process(cont, model_holder)
+
+        elif where == "thread" or where == "process":
             def later():
                 box = []
 
@@ -891,6 +970,14 @@ class Interp(object):
                     raise Abort()
 
         self._schedule(node, ctx, pending, cont)
+
+
+def _strip_model(node):
+    """A picklable copy of a model node (no live objects)."""
+    out = dict((k, v) for k, v in node.items() if k not in ("obj", "exc_obj", "children"))
+    if "children" in node:
+        out["children"] = [_strip_model(c) for c in node["children"]]
+    return out
 
 
 def _extractor_function(beh):
@@ -1168,7 +1255,7 @@ def program_features(program):
 TYPE_NAMES = ["app:a", "app:b", "app:c", "sys:x", "t", ""]
 
 
-def programs(max_nodes=12, faults=False, remote=True, kinds=None, msg_kinds=None, raises=True, preserve=True, max_depth=5, reenter=True, names=None, values=None):
+def programs(max_nodes=12, faults=False, remote=True, kinds=None, msg_kinds=None, raises=True, preserve=True, max_depth=5, reenter=True, names=None, values=None, remote_weight=1, min_depth=1):
     """
     Strategy for programs.  Depth is drawn first so that deep nestings are
     as likely as shallow ones; `max_nodes` bounds the body sizes.
@@ -1232,7 +1319,7 @@ def programs(max_nodes=12, faults=False, remote=True, kinds=None, msg_kinds=None
         if raises:
             options.append(body.map(lambda b: {"op": "try", "body": b}))
         if remote:
-            options.append(
+            options.extend([
                 st.builds(
                     lambda text, where, defer, body: {"op": "remote", "text": text, "where": where, "defer": defer, "body": body},
                     st.booleans(),
@@ -1240,7 +1327,7 @@ def programs(max_nodes=12, faults=False, remote=True, kinds=None, msg_kinds=None
                     st.sampled_from([0, 0, 1, 2, 5]),
                     body,
                 )
-            )
+            ] * remote_weight)
             if preserve:
                 options.append(
                     st.builds(
@@ -1272,4 +1359,4 @@ def programs(max_nodes=12, faults=False, remote=True, kinds=None, msg_kinds=None
         rest = st.lists(st.one_of(leaf, level(max(0, d - 2))), max_size=2)
         return st.tuples(st.lists(leaf, max_size=1), first, rest).map(lambda p: p[0] + [p[1]] + p[2])
 
-    return st.integers(1, max_depth).flatmap(program)
+    return st.integers(min_depth, max_depth).flatmap(program)
